@@ -404,6 +404,22 @@ def fuzz_stream(R, bases, cases, seconds, iters):
 
 def report_fails(R, fails, exe, pre, stream="hostile"):
     """one violation per distinct (format, signature); the replay carries the smallest failing input of the class"""
+    # a wall-clock time-out observed while 8..16 harness processes (and whatever else the machine runs) compete is re-examined
+    # with the input on its own: only a time-out that repeats is reported
+    confirmed, retried = [], 0
+    for c, m in fails:
+        if m and m.group(2) == "timeout" and retried < 24:
+            retried += 1
+            rc1, out1, _ = R.run_harness(exe, stdin_text="\n".join(pre + [c.line()]) + "\n", timeout=120, env=dict(ASAN_OPTIONS=ASAN, UBSAN_OPTIONS=UBSAN))
+            again = [RES.match(o) for o in kdf.obs(out1)]
+            again = [a for a in again if a]
+            if again and again[-1].group(2) != "timeout":
+                R.notes.append("time-out of %s not reproduced when the input ran on its own (%s)" % (c.desc[:80], again[-1].group(2)))
+                if again[-1].group(2) == "ok":
+                    continue
+                m = again[-1]
+        confirmed.append((c, m))
+    fails = confirmed
     classes = {}
     for c, m in fails:
         sig = m.group(7) if m else "harness-lost-case"
